@@ -270,6 +270,7 @@ func C06(c *run.Ctx) {
 	}
 	// ---------------- (ii) end to end ----------------
 	c06EndToEnd(c, r)
+	c06LiveRotation(c)
 	// ---------------- (iii) JWT access tokens ----------------
 	c06JWT(c, r)
 	// ---------------- (iv) minting ----------------
@@ -372,6 +373,78 @@ func c06EndToEnd(c *run.Ctx, r *rand.Rand) {
 		}
 		c.Sample(map[string]interface{}{"e2e_world": fmt.Sprintf("unlimited-refresh=%v rotated-secret=%v", unlimited, rotated), "example_mutants": mutants(at, at2)[:3]})
 	}
+}
+
+// c06LiveRotation: the operator rotates and retires global secrets on a LIVE provider (the Config is edited between requests,
+// nothing is rebuilt). At every stage a credential is honoured iff the secret it was minted under is the current or a rotated
+// one at that moment: in particular a retired secret stops working at once, also when the current secret did not change, and a
+// secret added to the rotated list starts working at once.
+func c06LiveRotation(c *run.Ctx) {
+	if !c.Mine(2) && c.NShards > 2 {
+		return
+	}
+	sA, sB, sC := secretN("live-A", 40), secretN("live-B", 40), secretN("live-C", 40)
+	for _, jwtAccess := range []bool{false, true} {
+		w := world.New(world.Opts{JWTAccess: jwtAccess, Cfg: func(cfg *fosite.Config) {
+			cfg.GlobalSecret = sA
+			cfg.RotatedGlobalSecrets = nil
+			cfg.RefreshTokenLifespan = -1
+		}})
+		a := world.Basic("conf-a", "secret-of-a")
+		type cred struct{ under, kind, val string }
+		var creds []cred
+		mint := func(under string) {
+			out := w.Token(url.Values{"grant_type": {"password"}, "username": {world.UserName}, "password": {world.UserPass}, "scope": {"offline fosite"}}, a)
+			if out.Err != nil {
+				c.Inconcl("c06 live rotation: password grant failed: " + world.ErrDetail(out.Err))
+				return
+			}
+			if !jwtAccess {
+				creds = append(creds, cred{under, "access", out.S("access_token")})
+			}
+			creds = append(creds, cred{under, "refresh", out.S("refresh_token")})
+		}
+		known := map[string]bool{}
+		stage := func(name string, global []byte, rotated [][]byte, names ...string) {
+			w.Cfg.GlobalSecret, w.Cfg.RotatedGlobalSecrets = global, rotated
+			known = map[string]bool{}
+			for _, n := range names {
+				known[n] = true
+			}
+			for _, cr := range creds {
+				var ok bool
+				switch cr.kind {
+				case "access":
+					ok = w.IntrospectAPI(cr.val, fosite.AccessToken).Active
+				case "refresh":
+					ok = w.IntrospectAPI(cr.val, fosite.RefreshToken).Active
+				}
+				c.Case(fmt.Sprintf("live-rotation stage=%s kind=%s minted-under=%s secret-known=%v honoured=%v jwt-access=%v", name, cr.kind, cr.under, known[cr.under], ok, jwtAccess))
+				c.Count("c06_live_rotation_probes", 1)
+				switch {
+				case ok && !known[cr.under]:
+					c.Violate(run.Violation{Kind: "forged-accepted", Key: fmt.Sprintf("forged-accepted live-rotation kind=%s minted under a retired secret, stage=%s", cr.kind, name),
+						Detail: fmt.Sprintf("a %s token minted under secret %s is honoured at stage %q where that secret is neither current nor rotated", cr.kind, cr.under, name)})
+				case !ok && known[cr.under]:
+					c.Violate(run.Violation{Kind: "minted-rejected", Key: fmt.Sprintf("minted-rejected live-rotation kind=%s stage=%s", cr.kind, name),
+						Detail: fmt.Sprintf("a %s token minted under secret %s is refused at stage %q where that secret is current or rotated", cr.kind, cr.under, name)})
+				}
+			}
+		}
+		mint("A")
+		stage("A current", sA, nil, "A")
+		stage("B current, A rotated", sB, [][]byte{sA}, "A", "B")
+		mint("B")
+		stage("B current, A rotated (after minting under B)", sB, [][]byte{sA}, "A", "B")
+		stage("B current, A retired", sB, nil, "B")
+		stage("B current, C added as rotated", sB, [][]byte{sC}, "B")
+		stage("B current, A brought back as rotated", sB, [][]byte{sC, sA}, "A", "B")
+		stage("C current, B rotated, A retired", sC, [][]byte{sB}, "B")
+		mint("C")
+		stage("C current, nothing rotated", sC, [][]byte{}, "C")
+		stage("A current again, C rotated", sA, [][]byte{sC}, "A", "C")
+	}
+	c.Sample(map[string]interface{}{"live_rotation": "one provider, Config.GlobalSecret / RotatedGlobalSecrets edited between requests, 9 stages x {opaque, JWT access}"})
 }
 
 func c06JWT(c *run.Ctx, r *rand.Rand) {
